@@ -20,6 +20,11 @@ pub enum Op {
     /// a new iterator consumed through `Iterator::nth(s)` (what skip / step_by use): it must return the s-th
     /// item from the reader's position and leave the reader right after it
     IterSkip(u8),
+    /// random access requesting a type the file does not hold (`read_nth_shape_as::<Multipoint>`): it fails, and must
+    /// not disturb what later calls return
+    NthAs(u8),
+    /// a typed iteration requesting a type the file does not hold, one `next()` call
+    IterAs,
 }
 
 #[derive(Serialize, Deserialize, Debug, Clone, Hash)]
@@ -28,8 +33,14 @@ pub struct HistCase {
     pub equal_sizes: bool,
     /// 0 = ShapeReader with index, 1 = complete Reader (shp+shx+dbf), 2 = ShapeReader without index,
     /// 3 = ShapeReader::from_path (files on disk), 4 = Reader::from_path
+    /// 5 = ShapeReader with index driven by the first half of the ops (rounded up), then handed to Reader::new with a
+    /// fresh dbase reader and driven by the rest
     pub reader: u8,
     pub ops: Vec<Op>,
+    /// 0 = files as the library writes them; 1 = the same records re-laid out as a foreign producer may: stored in
+    /// reverse physical order with filler bytes between them (the .shx lists them in logical order)
+    #[serde(default)]
+    pub layout: u8,
 }
 
 /// Record i is identifiable by its first x coordinate == i.
@@ -63,6 +74,32 @@ fn build_files_sized(n: usize, equal: bool, extra: usize) -> (Vec<u8>, Vec<u8>, 
         }
     }
     (shp.into_inner(), shx.into_inner(), dbf.into_inner())
+}
+
+/// Same records, reverse physical order, 4 + 2k filler bytes before the k-th stored record.
+fn relayout(shp: &[u8], shx: &[u8]) -> (Vec<u8>, Vec<u8>) {
+    let n = (shx.len() - 100) / 8;
+    let recs: Vec<&[u8]> = (0..n)
+        .map(|i| {
+            let off = u32::from_be_bytes(shx[100 + 8 * i..104 + 8 * i].try_into().unwrap()) as usize * 2;
+            let len = u32::from_be_bytes(shx[104 + 8 * i..108 + 8 * i].try_into().unwrap()) as usize * 2;
+            &shp[off..off + 8 + len]
+        })
+        .collect();
+    let mut out = shp[..100].to_vec();
+    let mut offs = vec![0usize; n];
+    for (k, i) in (0..n).rev().enumerate() {
+        out.extend(std::iter::repeat(0xEEu8).take(4 + 2 * k));
+        offs[i] = out.len();
+        out.extend_from_slice(recs[i]);
+    }
+    let words = (out.len() / 2) as u32;
+    out[24..28].copy_from_slice(&words.to_be_bytes());
+    let mut x = shx.to_vec();
+    for i in 0..n {
+        x[100 + 8 * i..104 + 8 * i].copy_from_slice(&((offs[i] / 2) as u32).to_be_bytes());
+    }
+    (out, x)
 }
 
 fn ident(s: &Shape) -> Option<usize> {
@@ -188,6 +225,46 @@ impl Model {
     }
 }
 
+impl Model {
+    /// One `next()` of a typed iterator requesting a type the file does not hold: an error while records remain,
+    /// None at the end. Afterwards the failed record counts as consumed or not.
+    fn typed_miss(&mut self, is_err: bool, is_none: bool, with_index: bool) -> Result<(), String> {
+        let mut cands: Vec<usize> = self.pos.clone();
+        if !self.exact && !cands.contains(&0) {
+            cands.push(0);
+        }
+        let mut next = Vec::new();
+        for p in cands {
+            if p < self.n && is_err {
+                next.push(p);
+                next.push(p + 1);
+                if !with_index {
+                    // without an index nothing tells where the next record starts once a read failed half-way:
+                    // the reader may have nothing more to give
+                    next.push(self.n);
+                }
+            }
+            if p >= self.n && is_none {
+                next.push(self.n);
+            }
+        }
+        if next.is_empty() {
+            return Err(format!(
+                "a typed iteration of the wrong type returned {} but the reader was positioned at {:?}{} of {} records",
+                if is_err { "an error" } else if is_none { "None" } else { "a value" },
+                self.pos,
+                if self.exact { "" } else { " (or may restart at 0)" },
+                self.n
+            ));
+        }
+        next.sort();
+        next.dedup();
+        self.pos = next;
+        self.exact = false;
+        Ok(())
+    }
+}
+
 fn take_items<I: Iterator<Item = Result<Option<usize>, String>>>(mut it: I, j: u8, n: usize) -> (Vec<Item>, bool) {
     let limit = if j == 255 { n + 3 } else { j as usize };
     let mut out = Vec::new();
@@ -210,6 +287,10 @@ fn take_items<I: Iterator<Item = Result<Option<usize>, String>>>(mut it: I, j: u
 }
 
 fn drive_shape_reader<T: std::io::Read + std::io::Seek>(mut r: ShapeReader<T>, with_index: bool, c: &HistCase, n: usize, model: &mut Model) -> Result<(), Fail> {
+    drive_shape_reader_ref(&mut r, with_index, c, n, model)
+}
+
+fn drive_shape_reader_ref<T: std::io::Read + std::io::Seek>(r: &mut ShapeReader<T>, with_index: bool, c: &HistCase, n: usize, model: &mut Model) -> Result<(), Fail> {
     let whole = |ops: &[Op], k: usize| format!("history {:?} (failing at op #{})", ops, k);
     for (k, op) in c.ops.iter().enumerate() {
         match op {
@@ -251,6 +332,28 @@ fn drive_shape_reader<T: std::io::Read + std::io::Seek>(mut r: ShapeReader<T>, w
                     fail!("iteration-sequence", "{}: {}", whole(&c.ops, k), m);
                 }
             }
+            Op::NthAs(i) => {
+                if !with_index {
+                    continue;
+                }
+                let i = *i as usize;
+                match r.read_nth_shape_as::<shapefile::Multipoint>(i) {
+                    None => ensure!(i >= n, "nth-wrong", "{}: read_nth_shape_as({}) is None with {} records", whole(&c.ops, k), i, n),
+                    Some(Ok(_)) => fail!("nth-wrong", "{}: read_nth_shape_as::<Multipoint>({}) yields a value from a file without multipoints", whole(&c.ops, k), i),
+                    Some(Err(_)) => {
+                        ensure!(i < n, "nth-wrong", "{}: read_nth_shape_as({}) is an error with {} records", whole(&c.ops, k), i, n);
+                        // nothing was delivered: what was not consumed before is still not consumed (or the reader restarts)
+                        model.exact = false;
+                    }
+                }
+            }
+            Op::IterAs => {
+                let first = r.iter_shapes_as::<shapefile::Multipoint>().next();
+                model.typed_miss(matches!(first, Some(Err(_))), first.is_none(), with_index).map_err(|m| Fail::new("iteration-sequence", format!("{}: {}", whole(&c.ops, k), m)))?;
+                if let Some(Ok(_)) = first {
+                    fail!("iteration-sequence", "{}: iter_shapes_as::<Multipoint> yields a value from a file without multipoints", whole(&c.ops, k));
+                }
+            }
         }
     }
     Ok(())
@@ -274,7 +377,11 @@ impl Prop for Histories {
     }
     fn check(c: &HistCase, ctx: &mut Ctx) -> Result<(), Fail> {
         let n = c.n as usize;
-        let (shp, shx, dbf) = if c.reader >= 3 { build_files_sized(n, c.equal_sizes, 185) } else { build_files(n, c.equal_sizes) };
+        let (shp, shx, dbf) = if c.reader == 3 || c.reader == 4 { build_files_sized(n, c.equal_sizes, 185) } else { build_files(n, c.equal_sizes) };
+        let (shp, shx) = if c.layout == 1 { relayout(&shp, &shx) } else { (shp, shx) };
+        if c.layout == 1 {
+            ctx.class("foreign-layout(reversed, gapped)");
+        }
         let mut model = Model {
             n,
             pos: vec![0],
@@ -291,7 +398,7 @@ impl Prop for Histories {
             match op {
                 Op::Seek(x) if *x > 0 => seen_seek = true,
                 Op::Iter(j) if *j != 255 && (*j as usize) < n => seen_partial = true,
-                Op::IterSkip(_) => seen_partial = true,
+                Op::IterSkip(_) | Op::IterAs | Op::NthAs(_) => seen_partial = true,
                 _ => {}
             }
             let _ = k;
@@ -301,7 +408,8 @@ impl Prop for Histories {
             1 => "Reader",
             2 => "ShapeReader-noshx",
             3 => "ShapeReader::from_path",
-            _ => "Reader::from_path",
+            4 => "Reader::from_path",
+            _ => "pre-used ShapeReader handed to Reader::new",
         });
         let whole = |ops: &[Op], k: usize| format!("history {:?} (failing at op #{})", ops, k);
         match c.reader {
@@ -361,7 +469,7 @@ impl Prop for Histories {
                                 fail!("iteration-sequence", "{}: {}", whole(&c.ops, k), m);
                             }
                         }
-                        Op::Nth(_) => {}
+                        Op::Nth(_) | Op::NthAs(_) | Op::IterAs => {}
                     }
                 }
             }
@@ -431,8 +539,44 @@ impl Prop for Histories {
                                     fail!("iteration-sequence", "{}: {}", whole(&c.ops, k), m);
                                 }
                             }
-                            Op::Nth(_) => {}
+                            Op::Nth(_) | Op::NthAs(_) | Op::IterAs => {}
                         }
+                    }
+                }
+            }
+            5 => {
+                let split = (c.ops.len() + 1) / 2;
+                let mut sr = ShapeReader::with_shx(Cursor::new(shp), Cursor::new(shx)).map_err(|e| Fail::new("open-error", err_str(&e)))?;
+                let first = HistCase { ops: c.ops[..split].to_vec(), ..c.clone() };
+                drive_shape_reader_ref(&mut sr, true, &first, n, &mut model).map_err(|f| Fail::new(&f.key, format!("(before Reader::new) {}", f.msg)))?;
+                let dr = dbase::Reader::new(Cursor::new(dbf)).map_err(|e| Fail::new("open-error", format!("{:?}", e)))?;
+                let mut r = Reader::new(sr, dr);
+                // the attribute rows start at row 0 whatever the shape reader did before: only the shapes are compared
+                for (k, op) in c.ops.iter().enumerate().skip(split) {
+                    match op {
+                        Op::Count => ensure!(r.shape_count().ok() == Some(n), "count-changes", "{}: shape_count = {:?}", whole(&c.ops, k), r.shape_count().ok()),
+                        Op::Seek(x) => {
+                            r.seek(*x as usize).map_err(|e| Fail::new("seek-error", format!("{}: {}", whole(&c.ops, k), err_str(&e))))?;
+                            model.pos = vec![(*x as usize).min(n)];
+                            model.exact = true;
+                        }
+                        Op::Iter(j) => {
+                            let it = r.iter_shapes_and_records().map(|x| match x {
+                                Ok((s, _)) => Ok(ident(&s)),
+                                Err(e) => Err(err_str(&e)),
+                            });
+                            let (items, ended) = take_items(it, *j, n);
+                            if let Err(m) = model.iterate(&items, ended) {
+                                fail!("iteration-sequence", "{} (ops from #{} on run on Reader::new(the used ShapeReader, ..)): {}", whole(&c.ops, k), split, m);
+                            }
+                        }
+                        Op::IterSkip(sk) => {
+                            let got = r.iter_shapes_and_records().nth(*sk as usize).map(|x| x.map(|(sh, _)| ident(&sh)).map_err(|e| err_str(&e)));
+                            if let Err(m) = model.skip_nth(*sk as usize, &got) {
+                                fail!("iteration-sequence", "{} (ops from #{} on run on Reader::new(the used ShapeReader, ..)): {}", whole(&c.ops, k), split, m);
+                            }
+                        }
+                        Op::Nth(_) | Op::NthAs(_) | Op::IterAs => {}
                     }
                 }
             }
@@ -453,6 +597,7 @@ impl Prop for Histories {
 struct Block {
     n: u8,
     equal: bool,
+    layout: u8,
     reader: u8,
     alphabet: Vec<Op>,
     len: usize,
@@ -490,6 +635,7 @@ impl Iterator for HistIter {
                 equal_sizes: blk.equal,
                 reader: blk.reader,
                 ops,
+                layout: blk.layout,
             });
         }
     }
@@ -511,22 +657,47 @@ impl EnumProp for Histories {
                 a1.push(Op::Seek(i));
             }
             let a2 = vec![Op::Iter(0), Op::Iter(1), Op::Iter(2), Op::Iter(255), Op::IterSkip(1)];
+            // the alphabet with the failing typed accesses (one op shorter)
+            let mut a0t = a0.clone();
+            a0t.push(Op::IterAs);
+            for i in 0..n {
+                a0t.push(Op::NthAs(i));
+            }
+            let a2t = vec![Op::Iter(0), Op::Iter(1), Op::Iter(255), Op::IterSkip(1), Op::IterAs];
             for equal in [false, true] {
                 for l in 1..=len {
-                    blocks.push(Block { n, equal, reader: 0, alphabet: a0.clone(), len: l });
+                    blocks.push(Block { n, equal, layout: 0, reader: 0, alphabet: a0.clone(), len: l });
                 }
                 for l in 1..=len + 1 {
-                    blocks.push(Block { n, equal, reader: 1, alphabet: a1.clone(), len: l });
+                    blocks.push(Block { n, equal, layout: 0, reader: 1, alphabet: a1.clone(), len: l });
                 }
                 for l in 1..=len + 2 {
-                    blocks.push(Block { n, equal, reader: 2, alphabet: a2.clone(), len: l });
+                    blocks.push(Block { n, equal, layout: 0, reader: 2, alphabet: a2.clone(), len: l });
                 }
                 // files on disk: one length shorter (each history opens real files)
                 for l in 1..=len - 1 {
-                    blocks.push(Block { n, equal, reader: 3, alphabet: a0.clone(), len: l });
+                    blocks.push(Block { n, equal, layout: 0, reader: 3, alphabet: a0.clone(), len: l });
                 }
                 for l in 1..=len {
-                    blocks.push(Block { n, equal, reader: 4, alphabet: a1.clone(), len: l });
+                    blocks.push(Block { n, equal, layout: 0, reader: 4, alphabet: a1.clone(), len: l });
+                }
+                // failing typed accesses in the history
+                for l in 1..=len - 1 {
+                    blocks.push(Block { n, equal, layout: 0, reader: 0, alphabet: a0t.clone(), len: l });
+                    blocks.push(Block { n, equal, layout: 1, reader: 0, alphabet: a0t.clone(), len: l });
+                    blocks.push(Block { n, equal, layout: 0, reader: 2, alphabet: a2t.clone(), len: l + 1 });
+                }
+                for l in 1..=len - 2 {
+                    blocks.push(Block { n, equal, layout: 0, reader: 3, alphabet: a0t.clone(), len: l });
+                }
+                // records stored in reverse order with gaps, located through the index
+                for l in 1..=len - 1 {
+                    blocks.push(Block { n, equal, layout: 1, reader: 1, alphabet: a1.clone(), len: l });
+                }
+                // a ShapeReader used first, then handed to Reader::new
+                for l in 2..=len - 1 {
+                    blocks.push(Block { n, equal, layout: 0, reader: 5, alphabet: a0t.clone(), len: l });
+                    blocks.push(Block { n, equal, layout: 1, reader: 5, alphabet: a0.clone(), len: l });
                 }
             }
         }
